@@ -48,4 +48,29 @@ Enclosing(P) == {s \in Candidates(P) : \A p \in P : InSphereC(s.c, s.a, p)}
 RadLeq(s1, s2) == CmpProd(N2(Num(s1.c, s1.a)), s2.c[4] * s2.c[4], N2(Num(s2.c, s2.a)), s1.c[4] * s1.c[4]) <= 0
 Minimals(P) == LET E == Enclosing(P) IN {s \in E : \A t \in E : RadLeq(s, t)}
 MinSphere(P) == CHOOSE s \in Minimals(P) : TRUE
+
+---------------------------------------------------------------------------
+(* Welzl's algorithm as the code runs it (bounding_sphere.rs:12-38, Sphere::from_boundary_points, Sphere::contains) in     *)
+(* exact arithmetic.  A sphere is [k |-> "empty"] (radius 0 at the origin), [k |-> "s", c, a] (centre c through a; a point *)
+(* sphere when c = a) or [k |-> "bad"]: three collinear or four coplanar boundary points - from_three_points /              *)
+(* from_four_points would divide by zero.  `contains` is false for every sphere of radius zero (geometry.rs:218-221).      *)
+SphereOf(b) ==
+    CASE Len(b) = 0 -> [k |-> "empty"]
+      [] Len(b) = 1 -> [k |-> "s", c |-> HPoint(b[1]), a |-> b[1]]
+      [] Len(b) = 2 -> [k |-> "s", c |-> C2(b[1], b[2]), a |-> b[1]]
+      [] Len(b) = 3 -> IF Cross(VSub(b[2], b[1]), VSub(b[3], b[1])) = <<0, 0, 0>> THEN [k |-> "bad"]
+                       ELSE [k |-> "s", c |-> C3(b[1], b[2], b[3]), a |-> b[1]]
+      [] OTHER      -> IF Det3(VSub(b[2], b[1]), VSub(b[3], b[1]), VSub(b[4], b[1])) = 0 THEN [k |-> "bad"]
+                       ELSE [k |-> "s", c |-> C4(b[1], b[2], b[3], b[4]), a |-> b[1]]
+ContainsW(s, p) == s.k = "s" /\ N2(Num(s.c, s.a)) > 0 /\ InSphereC(s.c, s.a, p)
+RECURSIVE Welzl(_, _)
+Welzl(pts, bnd) ==
+    IF pts = <<>> \/ Len(bnd) = 4 THEN SphereOf(bnd)
+    ELSE LET p    == pts[Len(pts)]                          \* points.pop()
+             rest == SubSeq(pts, 1, Len(pts) - 1)
+             s1   == Welzl(rest, bnd)
+         IN IF s1.k = "bad" \/ ContainsW(s1, p) THEN s1 ELSE Welzl(rest, Append(bnd, p))
+\* every order of the points
+RECURSIVE PermsOf(_)
+PermsOf(S) == IF S = {} THEN {<<>>} ELSE UNION {{<<x>> \o q : q \in PermsOf(S \ {x})} : x \in S}
 =============================================================================
